@@ -327,9 +327,34 @@ def load_known():
     return known
 
 
+def _failset(text):
+    m = re.search(r'FAILSET\{([^}]*)\}', text)
+    if not m:
+        return None
+    items = {}
+    for it in m.group(1).split(','):
+        it = it.strip()
+        if not it:
+            continue
+        if re.match(r'^.*:\d+$', it):
+            k, c = it.rsplit(':', 1)
+            items[k] = int(c)
+        else:
+            items[it] = 1
+    return items
+
+
 def match_known(known, prop, obligation, desc):
+    """a failure matches a known finding when it is the listed failure (substring), or -- for enumerations that print a
+    canonical FAILSET{..} -- when its failure set is a SUBSET of the listed one (a repair of part of a known finding
+    must not raise an alarm; any case outside the listed set does)."""
     for k in known:
-        if k['obligation'] == obligation and k['check'] and k['check'] in desc:
+        if k['obligation'] != obligation or not k['check']:
+            continue
+        if k['check'] in desc:
+            return k
+        ks, ds = _failset(k['check']), _failset(desc)
+        if ks is not None and ds is not None and ds and all(i in ks and ds[i] <= ks[i] for i in ds):
             return k
     return None
 
